@@ -19,12 +19,16 @@ REQUIRED_THEOREMS = [
     "TapkeeVerif.Knn.vptree_build_inv",
     "TapkeeVerif.Knn.vptree_search_exact",
     "TapkeeVerif.Knn.three_methods_agree",
-    "TapkeeVerif.Knn.CoverQuery.cover_query_exact_partial",
-    "TapkeeVerif.Knn.CoverQuery.cover_tree_exact_partial",
+    "TapkeeVerif.Knn.CoverQuery.cover_query_fuel_suffices",
+    "TapkeeVerif.Knn.CoverQuery.cover_query_fuel_mono",
+    "TapkeeVerif.Knn.CoverQuery.cover_query_exact",
+    "TapkeeVerif.Knn.CoverQuery.cover_tree_exact",
     "TapkeeVerif.Knn.CoverQuery.cover_copy_bound_refuted",
     "TapkeeVerif.Knn.CoverQuery.batchCreate_leaves",
     "TapkeeVerif.Knn.CoverQuery.batchCreate_wf",
-    "TapkeeVerif.Knn.CoverQuery.cover_tree_end_to_end_partial",
+    "TapkeeVerif.Knn.CoverQuery.batchCreate_leavesAt",
+    "TapkeeVerif.Knn.CoverQuery.cover_tree_end_to_end",
+    "TapkeeVerif.Knn.CoverQuery.cover_tree_total",
     "TapkeeVerif.Knn.CoverQuery.cover_top_uncovered_drops",
     "TapkeeVerif.Knn.CoverQuery.batchCreate_fuel_suffices",
     "TapkeeVerif.Knn.CoverQuery.batchCreate_fuel_mono",
@@ -164,7 +168,11 @@ def classify(c, io, mf):
     elif method == "covertree" and mf.get("wf") not in (None, "1"):
         return ("broken", "cover-tree-wf-certificate", "the cover tree built by batch_create is not well formed (wf=%s): first child "
                 "carrying the parent's point / true parent distances / max_dist bounding all descendants / every sample once "
-                "— the hypothesis of cover_query_exact_partial" % mf.get("wf"))
+                "— the hypothesis of cover_query_exact" % mf.get("wf"))
+    if method == "covertree" and mf.get("lf") not in (None, "1"):
+        return ("broken", "cover-tree-leafscale-certificate", "a childless node of the cover tree built by batch_create does not "
+                "carry leaf_scale (lf=%s) — the hypothesis of cover_query_fuel_suffices: the real query would split a leaf "
+                "and read children[0]" % mf.get("lf"))
     if method == "covertree" and "bt" in mf:
         # the Lean model of batch_create (run with the scale values the real code computed) against the real tree
         if mf.get("bh") != "ok":
@@ -180,6 +188,9 @@ def classify(c, io, mf):
                     "set_leaf_scale, scale functions as computed by the real code) builds a tree different from the real one "
                     "(bt=%s bls=%s: first differing preorder record id/scale/nchildren/max_dist/parent_dist of the model)"
                     % (mf["bt"][:120], mf.get("bls")))
+    if method == "covertree" and mf.get("mq") == "err":
+        return ("broken", "cover-query-model-no-answer", "Lean model of the batch query did not answer on the real tree although "
+                "its childless nodes carry leaf_scale (lf=1): contradicts cover_query_fuel_suffices (driver / model out of sync)")
     if method == "covertree" and mf.get("mq") not in (None, "ok"):
         return ("broken", "corr:cover-query", "Lean model of the batch query run on the real tree returns candidate sets different "
                 "from the real query (%s)" % mf.get("mq"))
@@ -251,6 +262,14 @@ def judge(ctx, binary, cases, label, brief=False):
             ctx.stat("cover-tree-dump-unparsed(certificate skipped)")
         elif "wf" in mf:
             ctx.stat("cover-trees-certified(wfTree)+model-query-run")
+            if mf.get("lf") == "1":
+                ctx.stat("cover-trees-certified(leavesAt leaf_scale)")
+            try:
+                qf = ctx.extra.setdefault("cover_query_fuel", {"max_queryFuel": 0, "trees": 0})
+                qf["trees"] += 1
+                qf["max_queryFuel"] = max(qf["max_queryFuel"], int(mf.get("qfuel", "0")))
+            except ValueError:
+                pass
             ctx.stat("fidelity:cover-query-order-" + mf.get("mqorder", "?"))
             if "bt" in mf:
                 ctx.stat("cover-trees-compared-with-batchCreate-model:" + ("identical" if mf["bt"] == "ok" else "different"))
@@ -543,8 +562,10 @@ def correspond(ctx):
         "resulting tree must equal the dumped real tree record by record (point, scale, number of children, max_dist, "
         "parent_dist, children order); int / short / unsigned short fields are unbounded integers in the model "
         "(|scale| < 5600 for doubles, fewer than 65536 children per node)",
-        "cover tree query: the real tree is additionally certificate-checked on every run (wfTree, now also a theorem about "
-        "the construction) and the Lean model of the batch query is run on it (candidate sets must equal the real query's; "
-        "halfsort = identity in the model); CandsOk and equality with {j | d(i,j) <= (k+1)-th distance} are evaluated on "
-        "the real candidate sets; the model of the wrapper runs on the real candidate sets",
+        "cover tree query: the real tree is additionally certificate-checked on every run (wfTree and leavesAt leaf_scale, "
+        "both also theorems about the construction: batchCreate_wf, batchCreate_leavesAt) and the Lean model of the batch "
+        "query is run on it with the fuel queryFuel = height + innerScale + 1 of cover_query_fuel_suffices (proved "
+        "sufficient and fuel-independent; candidate sets must equal the real query's; halfsort = identity in the model); "
+        "CandsOk and equality with {j | d(i,j) <= (k+1)-th distance} are evaluated on the real candidate sets; the model "
+        "of the wrapper runs on the real candidate sets",
     ]
